@@ -123,6 +123,14 @@ def gen_ops(rng, items, n_ops):
         r = rng.random()
         it = rng.choice(watched if rng.random() < 0.8 else usable)
         p, ln = it["pos"], it["len"]
+        if rng.random() < 0.07:
+            # a wholesale load (set_status_block: no notifications) that differs from the current block at a few watched items,
+            # then a patch that re-sends one of those items' CURRENT bytes (nothing may fire) and one that really changes another
+            picks = rng.sample(watched, min(len(watched), rng.randint(1, 3)))
+            ops.append(("load", [(x["pos"], bytes(rng.randrange(256) for _ in range(x["len"]))) for x in picks]))
+            ops.append(("same", picks[0]["pos"], picks[0]["len"], "identical-after-load"))
+            ops.append(("patch", picks[-1]["pos"], bytes(rng.randrange(256) for _ in range(picks[-1]["len"])), "field-after-load"))
+            continue
         if units and temps and rng.random() < 0.08:
             # one update that covers the unit setting AND the temperature items: the unit flips, the readings stay (or one changes)
             ops.append(("unitflip", units[0]["key"], rng.choice(temps)["key"] if rng.random() < 0.4 else None, "unitflip"))
@@ -224,6 +232,28 @@ def run(ctx):
                 if answers[0] != answers[1]:
                     ctx.violation(f"classes-differ:{kind}", {"cfg": cm["file"], "log": lm["file"], "op": list(map(str, op))}, answers[0], answers[1])
                 ctx.hist("ops", kind)
+                continue
+            if kind == "load":
+                nb_ = bytearray(block)
+                for pos_, bs_ in op[1]:
+                    nb_[pos_:pos_ + len(bs_)] = bs_
+                nb_ = bytes(nb_)
+                answers = []
+                for rig in rigs:
+                    try:
+                        rig.s.set_status_block(nb_)
+                        answers.append(f"ok {checksum(rig.s.status_block)}")
+                    except Exception as e:  # noqa
+                        answers.append(canon_err(e))
+                lines.append(f"load {nb_.hex()}")
+                impl_ans.append(answers[0])
+                if answers[0] != answers[1]:
+                    ctx.violation("classes-differ:load", {"cfg": cm["file"], "log": lm["file"]}, answers[0], answers[1])
+                if answers[0] != f"ok {checksum(nb_)}":
+                    ctx.violation("load:block-not-installed", {"cfg": cm["file"], "log": lm["file"], "block": nb_.hex()},
+                                  "after set_status_block the structure holds the loaded block", answers[0])
+                block = nb_
+                ctx.hist("ops", "load")
                 continue
             # ---- an update
             if kind == "patch":
